@@ -510,12 +510,6 @@ Proof.
   - f_equal. eapply IH; eauto.
 Qed.
 
-Definition newval (us : list (name * Z)) (r : rep) : Z :=
-  match int_of_rep (upd_rep us r) with Some v => v | None => -1 end.
-Definition shape_tabs (tabs : list (list tent)) := map (map (fun e => (te_wf e, te_vol e))) tabs.
-Definition mod_pos (m : tmod) := match m with TMod p _ _ => p end.
-Definition mod_count (m : tmod) := match m with TMod _ c _ => c end.
-
 (* update_volatile_parameters never changes which table / waveform an entry refers to nor the volatile marks, and every
    reported modification carries the new value of the count recorded at that position *)
 Lemma update_positions_shape : forall us ps adv tabs adv' tabs' ms,
@@ -525,7 +519,7 @@ Lemma update_positions_shape : forall us ps adv tabs adv' tabs' ms,
 Proof.
   intros us. induction ps as [|[p r] rest IH]; intros adv tabs adv' tabs' ms H.
   - inversion H; subst. repeat split; intros m [].
-  - cbn [update_positions] in H. fold (newval us r) in H.
+  - cbn [update_positions] in H. change (match int_of_rep (upd_rep us r) with Some v => v | None => -1 end) with (newval us r) in H.
     assert (Skip : update_positions us rest adv tabs = (adv', tabs', ms) ->
                    map snd adv' = map snd adv /\ shape_tabs tabs' = shape_tabs tabs /\
                    forall m, In m ms -> exists r0, In (mod_pos m, r0) ((p, r) :: rest) /\ mod_count m = newval us r0).
